@@ -8,6 +8,9 @@
 #include <stddef.h>
 #include <stdint.h>
 
+#ifndef VSTD_NEW_MAX_ELEMS
+#define VSTD_NEW_MAX_ELEMS 4096UL
+#endif
 typedef __int128 mathint;            /* 4.3: specs compare in 128-bit integers */
 #define MI(x) ((mathint)(x))
 
@@ -19,7 +22,21 @@ struct M_lock { char _unused; };                     /* sequential semantics: lo
 struct M_vec_voidp { unsigned long len; void **elem; unsigned long cap; };   /* std::vector<void*> as a sequence view: elem[0..len), capacity cap */
 struct M_map_str_voidp { int _opaque; };             /* std::map<std::string, void*>: only through map_* stubs */
 
-int vstd_uncaught_exceptions(void);   /* no body: arbitrary result */
+int vstd_uncaught_exceptions(void);
+/* M-mem: operator new / make_unique: a fresh, zero-initialised heap object of n*sz bytes (never null: new throws instead).
+ * The allocation size is recorded for the specification. */
+extern unsigned long g_new_bytes; extern unsigned g_news; extern void *g_new_ptr;
+void *malloc(unsigned long);
+static inline void *vstd_new(unsigned long n, unsigned long sz)
+{
+  unsigned long bytes = n * sz;
+  __CPROVER_assume(n <= VSTD_NEW_MAX_ELEMS);
+  char *p = malloc(bytes == 0 ? 1 : bytes);
+  __CPROVER_assume(p != 0);
+  __CPROVER_array_set(p, 0);
+  g_new_bytes = bytes; g_news = g_news + 1; g_new_ptr = p;
+  return p;
+}   /* no body: arbitrary result */
 #include "stdmodel_vec.h"
 
 #endif
